@@ -1,6 +1,7 @@
 package c10
 
 import (
+	"bytes"
 	"fmt"
 	"math"
 	"os"
@@ -30,6 +31,11 @@ type Case struct {
 	Port    string    `json:"port,omitempty"`    // value decoded by the port
 	Ref     string    `json:"ref,omitempty"`     // value(s) decoded by the reference(s)
 	Finding string    `json:"finding,omitempty"` // known-finding id the case would match
+	// Edit != "": the comparison ran on an edited copy of File: edit kind Edit applied with the
+	// parameters drawn from EditSeed (see edits.go; the edit is a deterministic function of the
+	// original bytes, the kind and the seed).
+	Edit     string `json:"edit,omitempty"`
+	EditSeed uint64 `json:"edit_seed,omitempty"`
 }
 
 // Tolerances (font units). Static fonts: zero everywhere. Variable settings: the port returns
@@ -91,6 +97,9 @@ type fctx struct {
 	postBigIndex bool               // post 2.0 with a glyphNameIndex above 32767
 	zeroFace     *font.Face         // face with explicit all-zero coordinates (matcher of findMvarNoCoords)
 
+	edit     string // edit kind, "" for an unedited corpus font
+	editSeed uint64
+
 	set    setting
 	isVar  bool // coordinates applied
 	normed []font.VarCoord
@@ -106,8 +115,24 @@ func openFace(tr faceTraits) (c *fctx, reason string) {
 	if err != nil {
 		return nil, "skip:unreadable"
 	}
+	return openFaceData(tr, data, faces[tr.Index].Font)
+}
+
+// parsePort parses font bytes with the port (all faces); a panic of the loader is an error here.
+func parsePort(data []byte) (faces []*font.Face, err error) {
+	defer func() {
+		if r := recover(); r != nil {
+			err = fmt.Errorf("panic: %v", r)
+		}
+	}()
+	return font.ParseTTC(bytes.NewReader(data))
+}
+
+// openFaceData loads the face tr.Index of the given bytes in every reference decoder; pfont is the
+// port's parse of the same bytes.
+func openFaceData(tr faceTraits, data []byte, pfont *font.Font) (c *fctx, reason string) {
 	c = &fctx{tr: tr, data: data}
-	c.pf = font.NewFace(faces[tr.Index].Font)
+	c.pf = font.NewFace(pfont)
 	c.hb = hbref.NewFace(data, tr.Index)
 	c.nGlyphs = c.hb.GlyphCount()
 	if c.nGlyphs == 0 {
@@ -196,7 +221,7 @@ func (c *fctx) apply(s setting) {
 }
 
 func (c *fctx) caseOf(gid uint32) Case {
-	return Case{File: c.tr.File, Index: c.tr.Index, Glyph: gid, Setting: c.set.Name, Coords: c.set.Design}
+	return Case{File: c.tr.File, Index: c.tr.Index, Glyph: gid, Setting: c.set.Name, Coords: c.set.Design, Edit: c.edit, EditSeed: c.editSeed}
 }
 
 // violate reports a violation (or, in survey mode, only records it).
@@ -204,10 +229,14 @@ func (c *fctx) violate(t ev.TB, check string, cs Case, what, port, ref string) {
 	cs.What, cs.Port, cs.Ref = what, port, ref
 	if survey {
 		ev.Label("survey:" + check + ":" + what)
-		surveyLine(fmt.Sprintf("%s %s: %s#%d glyph=%d rune=U+%04X setting=%s %v port=%s ref=%s\n", check, what, cs.File, cs.Index, cs.Glyph, cs.Rune, cs.Setting, cs.Coords, port, ref))
+		surveyLine(fmt.Sprintf("%s %s: %s#%d edit=%s/%d glyph=%d rune=U+%04X setting=%s %v port=%s ref=%s\n", check, what, cs.File, cs.Index, cs.Edit, cs.EditSeed, cs.Glyph, cs.Rune, cs.Setting, cs.Coords, port, ref))
 		return
 	}
-	ev.Fail(t, check, cs, "%s: %s#%d glyph %d (rune U+%04X) setting %s %v: port %s, reference %s", what, cs.File, cs.Index, cs.Glyph, cs.Rune, cs.Setting, cs.Coords, port, ref)
+	ed := ""
+	if cs.Edit != "" {
+		ed = fmt.Sprintf(" [edited: %s seed %d]", cs.Edit, cs.EditSeed)
+	}
+	ev.Fail(t, check, cs, "%s: %s#%d%s glyph %d (rune U+%04X) setting %s %v: port %s, reference %s", what, cs.File, cs.Index, ed, cs.Glyph, cs.Rune, cs.Setting, cs.Coords, port, ref)
 }
 
 // known handles a case matched by the structural matcher of a known finding: excluded and counted
